@@ -23,6 +23,7 @@ inductive Err
   | notImpl        -- NotImplementedError
   | runtime        -- RuntimeError("weight must <=1")
   | attribute      -- AttributeError (no market status yet)
+  | value          -- ValueError (int(nan))
 deriving DecidableEq, Repr, Inhabited
 
 def Err.name : Err → String
@@ -35,6 +36,7 @@ def Err.name : Err → String
   | .notImpl => "NotImplementedError"
   | .runtime => "RuntimeError"
   | .attribute => "AttributeError"
+  | .value => "ValueError"
 
 /-- `UniV3Pool` -/
 structure Pool where
@@ -66,6 +68,9 @@ structure Pos where
   pending0 : Rat
   pending1 : Rat
   liq : Int
+  /-- `liquidity` is held as a `Decimal` (after a partial removal through the public API, whose decorator turns
+      the `int` argument into a `Decimal`): products with it are rounded by the context -/
+  liqDec : Bool := false
   lowerPrice : Rat
   upperPrice : Rat
   initPrice : Rat
@@ -150,8 +155,8 @@ structure Kern where
   tickToPrice : Pool → Int → Except Err Rat
   /-- `V3CoreLib.new_position`: used0, used1, liquidity -/
   newPos : Pool → Nat → Int → Int → Rat → Rat → Except Err (Rat × Rat × Int)
-  /-- `V3CoreLib.get_token_amounts` / `close_position` -/
-  amounts : Pool → Nat → Int → Int → Int → Except Err (Rat × Rat)
+  /-- `V3CoreLib.get_token_amounts` / `close_position` (sqrt price, lower, upper, liquidity, liquidity is a Decimal) -/
+  amounts : Pool → Nat → Int → Int → Int → Bool → Except Err (Rat × Rat)
   /-- `tick_to_sqrt_price_x96` -/
   tickToSqrt : Int → Except Err Nat
 
